@@ -119,6 +119,8 @@ def run_case(c, ci):
                 t = type("ST%d_%d" % (ci, ti), (pyc.BaseTracer,), attrs).instance()
             else:
                 t = rw.make_tracer("ST%d_%d" % (ci, ti), ts["events"], guards=ts.get("guards", False), recorder=recorder)
+            if ts.get("nobook"):
+                type(t).requires_ast_bookkeeping = False       # this tracer does not want node tables; the others of the stack do
             tracers.append(t)
         with ExitStack() as st:
             for t in tracers:
